@@ -35,7 +35,7 @@ func init() {
 			Req: []string{"ok(rp.trySetStateCookie(_, $state, $rp))", "def($state, $stateFn())"}},
 		{ID: "E8.rp.authurl.challenge", Fn: "client/rp.AuthURLHandler$1", Kind: "call", Pat: "rp.WithCodeChallenge($c)", Max: 1,
 			Req: []string{"true($rp.IsPKCE())", "def($c, rp.GenerateAndStoreCodeChallenge(_, $rp), 0)", "ok(rp.GenerateAndStoreCodeChallenge(_, $rp))"}},
-		{ID: "E8.rp.authurl.config", Fn: "client/rp.AuthURL", P: []string{"state", "rp"}, Kind: "ret any", Pat: "ret($rp.OAuthConfig().AuthCodeURL($state, __))", Max: 1},
+		{ID: "E8.rp.authurl.config", Fn: "client/rp.AuthURL", P: []string{"state", "rp"}, Kind: "ret any", Pat: "ret($rp.OAuthConfig().AuthCodeURL($state, __))", Max: 1, Only: true},
 		{ID: "E1.rp.setcookie", Fn: "client/rp.trySetStateCookie", P: []string{"w", "state", "rp"}, Kind: "ret ok",
 			Req: []string{"nil($rp.CookieHandler()) || ok($rp.CookieHandler().SetCookie($w, rp.stateParam, $state))"}},
 		{ID: "E8.rp.cookie.set", Fn: "http.(*CookieHandler).SetCookie", P: []string{"c", "w", "name", "value"}, Kind: "call", Pat: "http.SetCookie($w, &Cookie{Name: $name, Value: $enc})", Max: 1,
